@@ -380,7 +380,7 @@ func runC11(c *Ctx) {
 				return
 			}
 			n++
-			c.ob("C11-R6", fnKey(adm)+"#limits-key-"+itoa(n), ins.Pos(), derivesFrom(k, isIP), "the per-client table is accessed with a key that does not derive from getClientIP of this request: clients share (or escape) a bucket")
+			c.ob("C11-R6", fnKey(adm)+"#limits-key-"+itoa(n), ins.Pos(), derivesFrom(k, isIP) && onlyFrom(k, isIP), "the per-client table is accessed with a key that is not, on every path, getClientIP of this request (another value or a constant can take its place): clients share (or escape) a bucket")
 		})
 		c.floor("C11-R6", 1)
 	}
